@@ -1181,6 +1181,15 @@ func (x *Exec) loopHead(st *State, fr *Frame, l *Loop, from *ssa.BasicBlock) {
 		st.ExitKind = "cut"
 		return
 	}
+	// remember the state at the loop's first arrival: invariants may refer to it as entry(e)
+	{
+		ne := map[int]loopEntrySnap{}
+		for k, v := range st.LoopEntry {
+			ne[k] = v
+		}
+		ne[l.N] = loopEntrySnap{copyHeap(st.Heap), st.Epoch}
+		st.LoopEntry = ne
+	}
 	// first arrival: havoc everything the loop may modify, then assume the invariant
 	if len(lmods) > 0 {
 		var items []modItem
